@@ -462,6 +462,8 @@ def classify(line, out):
     t = line.split(" ")
     op = t[0]
     o = out.split(" ")
+    if out in ("<crash>", "bad-op", ""):
+        return op + ":" + (out or "empty")
     if op == "rng":
         lay = t[6]
         kinds = "".join(sorted(set(c for c in lay if c.isalpha())))
